@@ -40,7 +40,7 @@ from halmos.contract import Contract  # noqa: E402
 from vlib import zeval  # noqa: E402
 
 ID = "C07"
-LEAN_MODULES = ["HalmosVerif.Props.C07"]
+LEAN_MODULES = ["HalmosVerif.Props.C07", "HalmosVerif.Props.C07Laws"]
 LEAN_EXTRA_TARGETS = ["HalmosVerif.Model.ByteVec"]
 RULE = (
     "a case = one operation of a history applied to a pool of 3 ByteVec objects, after which length, flattened "
